@@ -57,7 +57,15 @@ Emit ==
           id \in {0, 255} :
           P("mmap", [len |-> l, fdoff |-> fo, shmoff |-> so, flags |-> f, shmid |-> id])
 
-Init == done = FALSE /\ Emit
+W == {<<0,0>>, <<1,0>>, <<255,0>>, <<M,0>>, <<0,1>>, <<M,32767>>, <<0,32768>>, <<M,M>>}
+EmitFree ==
+    /\ \A v \in B64 : P("u64", [w |-> <<<<v[1], v[2]>>, <<v[3], v[4]>>>>])
+    /\ \A i \in B32, n \in B32 : P("vring_state", [w |-> <<i, n>>])
+    /\ \A a \in B32 : P("gpu_edid_req", [w |-> <<a>>])
+    /\ \A t \in {"gpu_cursor_pos", "gpu_scanout"}, a \in W, b \in W, c \in W : P(t, [w |-> <<a, b, c>>])
+    /\ \A k \in 1..5, a \in B32, rest \in {<<0,0>>, <<M,M>>} : P("gpu_update", [w |-> [j \in 1..5 |-> IF j = k THEN a ELSE rest]])
+
+Init == done = FALSE /\ Emit /\ EmitFree
 Next == ~done /\ done' = TRUE
 Spec == Init /\ [][Next]_done
 
